@@ -68,7 +68,11 @@ Theorem C04_esir_first_row_as_requested_fifo : forall tb g delay dur i0 r0 tmin 
   init_first (length i0) tb ->
   esir_okb2 g delay dur i0 r0 tmin tmax = true -> (esir_fuel g i0 <= fuel)%nat ->
   exists evs out cs,
-    esir_log tb g delay dur i0 r0 tmin tmax fuel = Ok evs /    esir_det tb g delay dur i0 r0 tmin tmax full fuel = Ok (out, cs) /    Permutation (firstn (length i0) evs) (init_events tmin i0) /    so_rows out = log_arrays (gnodes g) sir_ps tmin (esir_init i0 r0) (skipn (length i0) evs) /    exists rest, so_rows out =
+    esir_log tb g delay dur i0 r0 tmin tmax fuel = Ok evs /\
+    esir_det tb g delay dur i0 r0 tmin tmax full fuel = Ok (out, cs) /\
+    Permutation (firstn (length i0) evs) (init_events tmin i0) /\
+    so_rows out = log_arrays (gnodes g) sir_ps tmin (esir_init i0 r0) (skipn (length i0) evs) /\
+    exists rest, so_rows out =
       (tmin, [order g - Z.of_nat (length i0) - Z.of_nat (length r0); Z.of_nat (length i0); Z.of_nat (length r0)]%Z) :: rest.
 Proof. exact esir_rows_start_fifo. Qed.
 
